@@ -4,7 +4,7 @@ from . import semjobs
 from .bddprops import ASSUMPTIONS
 
 BOUNDS = ('ADF families F(n,S,seed): n=2 with all statements symbolic (the complete space of 256 ADFs); n=3 with |S|=1 symbolic statement '
-          '(256 functions) in concrete contexts drawn from VERIF_SEED; thorough adds n=3 |S|=2 (65 536 ADFs per family) and n=4 |S|=1. '
+          '(256 functions) in concrete contexts drawn from VERIF_SEED; thorough adds n=3 |S|=2 (65 536 ADFs per family) and n=4 |S|=1 (not for complete models). '
           'Diagrams are built through the real Bdd::node (Shannon expansion); MIR step fuel per path as configured.')
 OUTSIDE = ('symbolic engine: n=3 with all statements symbolic (16.7M ADFs) and larger, and the biodivine library internals. The biodivine / hybrid back-ends and '
            'the rewriting variants are covered by the second engine (z3 judging the real binary\'s answers on concrete texts, see coverage.backend_*), '
